@@ -8,4 +8,22 @@ CHECKS = {
         "text": "Every packet sequence of the bound is framed from bytes, file objects with every read size and a scripted socket under EVERY fragmentation; each execution is compared byte for byte with the ten-line framing model. States/transitions/executions are measured. Exhaustive inside the bound, nothing outside it.",
         "note": "Trusts: CPython generator state = locals + instruction pointer (cross-checked by stateless exploration on short streams); scripted socket subclass stands for real sockets; the AST rewrite changes only the integer literal 20000000.",
     },
+    "C10": {
+        "level": "fault_enumeration",
+        "technique": "exhaustive crash-point enumeration: every stream cut at every byte offset for bytes/file sources; explicit-state exploration of the framer over a scripted socket where peer-close is an alternative at every recv() choice point under every fragmentation",
+        "text": "Every truncation point of every stream in the bound, every read size, every socket fragmentation combined with a close at every choice point, plus all short/arbitrary byte strings of the bound, are executed on the real generators; each execution must terminate without polling a dead source and yield exactly the greedy framing of the delivered bytes.",
+        "note": "Peer close = recv() returning b''; liveness is made visible by counting reads after end-of-data (Livelock) and by an item horizon; SIGALRM only as a last resort.",
+    },
+    "C03": {
+        "level": "exploration",
+        "technique": "bounded-exhaustive enumeration of (buffer, position, width) on the real read methods against a bit-string slicing model",
+        "text": "All buffers of <= 2 bytes with every (p, n), and every (p, n) window of longer buffers over a content family that includes every filling of the bits around both window edges, are read with both read methods; value, type, cursor and buffer are compared with string slicing. Exhaustive within the bound.",
+        "note": "Values above 2 bytes are covered structurally (edge fillings, walking bits, patterns), not for all 2^(8*len) contents.",
+    },
+    "C13": {
+        "level": "exploration",
+        "technique": "bounded-exhaustive enumeration of header words, data lengths and boundary products through create_ccsds_packet, the accessors and the framer against a string-formatting model",
+        "text": "All 2^16 values of each 16-bit header word, every (quick: a boundary family of) data length, the full product of boundary values of all fields, the decode direction for every 16-bit word value, and the rejection cases are executed and compared with an independent layout model.",
+        "note": "The joint space of all seven fields (2^48) is covered per 16-bit word and by boundary products, not jointly.",
+    },
 }
